@@ -2,9 +2,11 @@
   Umbrella of property C01: the ground-truth balance theorems and the abstract recovery theorem (Props/C01.lean) and the
   link to the assembled matrix — the model's normalised matrix annihilates the true tensions, end-to-end recovery
   (Props/C01matrix.lean), and the tissue-level theorems that discharge its hypotheses hnorm/htrue for tissues of exact
-  arcs and two-point segments (Props/C01tissue.lean).
+  arcs and two-point segments (Props/C01tissue.lean); the quantitative bounds for a vector that passed the per-run KKT
+  certificate (Props/C05bound.lean: static_certified_recovery).
   lean/props.json names this module for C01, so that `./check C01` builds and audits both.
 -/
 import ForsysModel.Props.C01
 import ForsysModel.Props.C01matrix
 import ForsysModel.Props.C01tissue
+import ForsysModel.Props.C05bound
